@@ -505,6 +505,42 @@ theorem accept_after_close_never_blocks {c : LConfig} (h : LReachable listen c)
   · simp [hm] at hm'
   · simp [hm] at hm'
 
+/-- **Accept's error path gives the slot back, a returned connection keeps exactly one**: a
+goroutine that is not inside a call owns no semaphore token — whatever its last Accept returned
+(an error of the wrapped listener, temporary or not, or a connection).  With
+`semaphore_accounting` this says: every token is owned either by an Accept still in progress or
+by exactly one returned connection whose `releaseOnce` has not fired; a failed Accept leaves
+nothing behind, and no connection is ever returned without a token. -/
+theorem accept_returns_without_spare_slot {c : LConfig} (h : LReachable listen c) {i : Nat} {g : LG}
+    (hg : c.gs[i]? = some g) (hidle : g.cont = []) : g.slot = false := by
+  obtain ⟨hw, _⟩ := (listener_invariant h).gwf g (List.mem_of_getElem? hg)
+  rcases hw with ⟨_, hs⟩ | ⟨_, hp⟩ | ⟨_, _, hp⟩ | ⟨k, cn, _, _, _, hp⟩
+  · exact hs
+  · rcases hp with ⟨hc, _⟩ | ⟨hc, _⟩ | ⟨hc, _⟩ | ⟨hc, _⟩ <;> simp [hidle, listen] at hc
+  · rcases hp with hc | ⟨hc, _⟩ | ⟨hc, _⟩ <;> simp [hidle, listen] at hc
+  · rcases hp with hc | ⟨hc, _⟩ | ⟨hc, _⟩ <;> simp [hidle, listen] at hc
+
+/-- The step that returns a connection creates its record with the release still pending and
+moves the goroutine's token to it: the semaphore is untouched. -/
+theorem accept_return_transfers_slot {c c' : LConfig} {i : Nat} {g : LG} (h : LReachable listen c)
+    (hg : c.gs[i]? = some g) (hc : g.cont = [.retConn])
+    (hs : c.step listen i (.stmt 0) = some c') :
+    c'.σ = c.σ ∧ c'.conns = c.conns ++ [{ returned := true }] ∧ g.slot = true := by
+  obtain ⟨hw, _⟩ := (listener_invariant h).gwf g (List.mem_of_getElem? hg)
+  have hslot : g.slot = true ∧ g.conn = true := by
+    rcases hw with ⟨hc', _⟩ | ⟨_, hp⟩ | ⟨_, _, hp⟩ | ⟨k, cn, _, _, _, hp⟩
+    · simp [hc] at hc'
+    · rcases hp with ⟨hc', _⟩ | ⟨hc', _⟩ | ⟨hc', _⟩ | ⟨_, h1, _, h2⟩
+      · simp [hc, listen] at hc'
+      · simp [hc, listen] at hc'
+      · simp [hc, listen] at hc'
+      · exact ⟨h1, h2⟩
+    · rcases hp with hc' | ⟨hc', _⟩ | ⟨hc', _⟩ <;> simp [hc, listen] at hc'
+    · rcases hp with hc' | ⟨hc', _⟩ | ⟨hc', _⟩ <;> simp [hc, listen] at hc'
+  simp [LConfig.step, hg, LG.step, hc, hslot.2] at hs
+  subst hs
+  exact ⟨rfl, rfl, hslot.1⟩
+
 /-! ## V-tie: soundness of the trace monitor -/
 
 open NetVerif.Model.ChanSemMonitor in
